@@ -161,10 +161,18 @@ SPECS = {
     'nf_iso_wrap': {'name': 'nf_iso_wrap', 'setup': 'nf_setup',
                     'threads': [('nf_warm', 'nf_r_wrap_a'), ('nf_pre_load_b', 'nf_exit_t2'), ('nf_warm', 'nf_w_store_b3')],
                     'final': 'nf_final', 'covers': [13]},
+    'nf_churn_min': {'name': 'nf_churn_min', 'setup': 'nf_setup',
+                     'threads': [(None, 'nf_r1_load_exit'), ('nf_warm', 'nf_w_store_a2'), (None, 'nf_r3_store_load_rec')],
+                     'after': {3: 1}, 'final': 'nf_final_lin', 'covers': [13]},
     # --- two new threads race for the node an exited thread left behind
     'nf_claim2': {'name': 'nf_claim2', 'setup': 'nf_setup',
                   'threads': [('nf_warm', 'nf_exit_t1'), (None, 'nf_r_new_load2'), (None, 'nf_r_new_load2')],
                   'final': 'nf_final', 'covers': [13]},
+    # --- C18 under contention: the armed destructor of obj0 panics wherever its last reference is released
+    'pb_cas': {'name': 'pb_cas', 'setup': 'pb_setup', 'threads': [('pb_warm', 'pb_t1_cas_raw'), ('pb_warm', 'pb_t2_swap1')], 'final': 'pb_final', 'covers': [13, 16]},
+    'pb_rcu': {'name': 'pb_rcu', 'setup': 'pb_setup', 'threads': [('pb_warm', 'pb_t1_rcu'), ('pb_warm', 'pb_t2_swap1')], 'final': 'pb_final', 'covers': [13, 16]},
+    'pb_load': {'name': 'pb_load', 'setup': 'pb_setup', 'threads': [('pb_warm', 'pb_t1_load_drop'), ('pb_warm', 'pb_t2_swap1')], 'final': 'pb_final', 'covers': [13, 16]},
+    'pbn_load': {'name': 'pbn_load', 'setup': 'pbn_setup', 'threads': [('pbn_warm', 'pbn_t1_load_drop'), ('pbn_warm', 'pbn_t2_swap1')], 'final': 'pbn_final', 'covers': [13, 16]},
     # --- projections loaded on the fast / fallback path while a writer replaces the value
     'map_fast': {'name': 'map_fast', 'setup': 'cs_setup2', 'threads': [(W, 'r3_map_loads'), (W, 'cs_w_store1')],
                  'final': 'r3_final_map', 'covers': [13]},
@@ -358,9 +366,16 @@ def c18(ctx):
                                         'Drop of the replaced value inside store', 'Drop of the rejected new value inside compare_and_swap',
                                         'projection inside Map::load'], 'threads': 'sequential, follow-up operations on a second simulated thread',
                        'flavour': 'panic=unwind: landing pads, cleanup and resume are executed'})
-    ctx.outside += ['panics with concurrent readers/writers (sequential fault injection only)', 'Clone of a custom pointee']
+    ctx.outside += ['panics with more than two threads involved', 'Clone of a custom pointee']
     for e in ['c18_rcu', 'c18_rcu_drop', 'c18_store_drop', 'c18_cas_reject', 'c18_map']:
         seq_run(ctx, e, flavor='unw')
+    # under contention: the destructor of the replaced value panics wherever its last reference happens to be released
+    # (inside compare_and_swap / rcu retries, a guard drop, the writer's drop of the old value, the fallback load's
+    # release of an unused candidate) - context-bounded, panic=unwind flavour
+    ctx.bounds['concurrent'] = ('2 threads: {compare_and_swap with a raw `current` | rcu | load + guard drop} against swap + drop of the old value, '
+                                'armed destructor on the initial value; default strategy (K=%d) and fallback-only strategy (helping path, K=3)' % (2 if ctx.tier == 'quick' else 3))
+    cb_set(ctx, ['pb_cas', 'pb_rcu', 'pb_load'], 2 if ctx.tier == 'quick' else 3, flavor='unw')
+    cb_run(ctx, SPECS['pbn_load'], 3, flavor='unw', features=TS)
 
 
 @prop('C20')
